@@ -26,6 +26,32 @@ use crate::{
     void::Void,
 };
 
+fn bad_json(what: &str) -> StoryError {
+    StoryError::BadJson(format!("Malformed ink JSON: {what}"))
+}
+
+fn as_str<'a>(value: &'a serde_json::Value, what: &str) -> Result<&'a str, StoryError> {
+    value
+        .as_str()
+        .ok_or_else(|| bad_json(&format!("{what} must be a string")))
+}
+
+fn as_i64(value: &serde_json::Value, what: &str) -> Result<i64, StoryError> {
+    value
+        .as_i64()
+        .ok_or_else(|| bad_json(&format!("{what} must be an integer")))
+}
+
+fn as_u64(value: &serde_json::Value, what: &str) -> Result<u64, StoryError> {
+    value
+        .as_u64()
+        .ok_or_else(|| bad_json(&format!("{what} must be a non-negative integer")))
+}
+
+fn as_i32(value: &serde_json::Value, what: &str) -> Result<i32, StoryError> {
+    i32::try_from(as_i64(value, what)?).map_err(|_| bad_json(&format!("{what} is out of range")))
+}
+
 pub fn load_from_string(
     s: &str,
 ) -> Result<(i32, Rc<Container>, Rc<ListDefinitionsOrigin>), StoryError> {
@@ -34,15 +60,17 @@ pub fn load_from_string(
         Err(_) => return Err(StoryError::BadJson("Story not in JSON format.".to_owned())),
     };
 
-    let version_opt = json.get("inkVersion");
+    let version_token = match json.get("inkVersion") {
+        Some(value) if value.is_number() => value,
+        _ => {
+            return Err(StoryError::BadJson(
+                "ink version number not found. Are you sure it's a valid .ink.json file?"
+                    .to_owned(),
+            ));
+        }
+    };
 
-    if version_opt.is_none() || !version_opt.unwrap().is_number() {
-        return Err(StoryError::BadJson(
-            "ink version number not found. Are you sure it's a valid .ink.json file?".to_owned(),
-        ));
-    }
-
-    let version: i32 = version_opt.unwrap().as_i64().unwrap().try_into().unwrap();
+    let version = as_i32(version_token, "ink version number")?;
 
     if version > INK_VERSION_CURRENT {
         return Err(StoryError::BadJson(
@@ -97,7 +125,7 @@ pub fn jtoken_to_runtime_object(
         serde_json::Value::Bool(value) => Ok(Rc::new(Value::new::<bool>(value.to_owned()))),
         serde_json::Value::Number(_) => {
             if token.is_i64() {
-                let val: i32 = token.as_i64().unwrap().try_into().unwrap();
+                let val = as_i32(token, "integer value")?;
                 Ok(Rc::new(Value::new::<i32>(val)))
             } else {
                 let val: f32 = token.as_f64().unwrap() as f32;
@@ -109,10 +137,10 @@ pub fn jtoken_to_runtime_object(
             let str = value.as_str();
 
             // String value
-            let first_char = str.chars().next().unwrap();
-            if first_char == '^' {
+            let first_char = str.chars().next();
+            if first_char == Some('^') {
                 return Ok(Rc::new(Value::new::<&str>(&str[1..])));
-            } else if first_char == '\n' && str.len() == 1 {
+            } else if first_char == Some('\n') && str.len() == 1 {
                 return Ok(Rc::new(Value::new::<&str>("\n")));
             }
 
@@ -162,12 +190,12 @@ pub fn jtoken_to_runtime_object(
             let prop_value = obj.get("^var");
 
             if let Some(v) = prop_value {
-                let variable_name = v.as_str().unwrap();
+                let variable_name = as_str(v, "variable pointer name")?;
                 let mut contex_index = -1;
                 let prop_value = obj.get("ci");
 
                 if let Some(v) = prop_value {
-                    contex_index = v.as_i64().unwrap() as i32;
+                    contex_index = as_i64(v, "variable pointer context index")? as i32;
                 }
 
                 let var_ptr = Rc::new(Value::new_variable_pointer(variable_name, contex_index));
@@ -209,7 +237,7 @@ pub fn jtoken_to_runtime_object(
             }
 
             if is_divert {
-                let target = prop_value.unwrap().as_str().unwrap().to_string();
+                let target = as_str(prop_value.unwrap(), "divert target")?.to_string();
 
                 let mut var_divert_name: Option<String> = None;
                 let mut target_path: Option<String> = None;
@@ -229,7 +257,7 @@ pub fn jtoken_to_runtime_object(
                 if external {
                     prop_value = obj.get("exArgs");
                     if let Some(prop_value) = prop_value {
-                        external_args = prop_value.as_i64().unwrap() as usize;
+                        external_args = as_i64(prop_value, "exArgs")? as usize;
                     }
                 }
 
@@ -248,10 +276,10 @@ pub fn jtoken_to_runtime_object(
             let prop_value = obj.get("*");
             if let Some(cp) = prop_value {
                 let mut flags = 0;
-                let path_string_on_choice = cp.as_str().unwrap();
+                let path_string_on_choice = as_str(cp, "choice point path")?;
                 let prop_value = obj.get("flg");
                 if let Some(f) = prop_value {
-                    flags = f.as_u64().unwrap();
+                    flags = as_u64(f, "choice point flags")?;
                 }
 
                 return Ok(Rc::new(ChoicePoint::new(
@@ -263,14 +291,18 @@ pub fn jtoken_to_runtime_object(
             // // Variable reference
             let prop_value = obj.get("VAR?");
             if let Some(name) = prop_value {
-                return Ok(Rc::new(VariableReference::new(name.as_str().unwrap())));
+                return Ok(Rc::new(VariableReference::new(as_str(
+                    name,
+                    "variable reference name",
+                )?)));
             }
 
             let prop_value = obj.get("CNT?");
             if let Some(v) = prop_value {
-                return Ok(Rc::new(VariableReference::from_path_for_count(
-                    v.as_str().unwrap(),
-                )));
+                return Ok(Rc::new(VariableReference::from_path_for_count(as_str(
+                    v,
+                    "read count path",
+                )?)));
             }
 
             // // Variable assignment
@@ -293,7 +325,7 @@ pub fn jtoken_to_runtime_object(
             }
 
             if is_var_ass {
-                let var_name = prop_value.unwrap().as_str().unwrap();
+                let var_name = as_str(prop_value.unwrap(), "variable assignment name")?;
                 let prop_value = obj.get("re");
                 let is_new_decl = prop_value.is_none();
 
@@ -308,32 +340,38 @@ pub fn jtoken_to_runtime_object(
             // Legacy Tag
             prop_value = obj.get("#");
             if let Some(prop_value) = prop_value {
-                return Ok(Rc::new(Tag::new(prop_value.as_str().unwrap())));
+                return Ok(Rc::new(Tag::new(as_str(prop_value, "tag text")?)));
             }
 
             // List value
             prop_value = obj.get("list");
 
             if let Some(pv) = prop_value {
-                let list_content = pv.as_object().unwrap();
+                let list_content = pv
+                    .as_object()
+                    .ok_or_else(|| bad_json("list value must be an object"))?;
                 let mut raw_list = InkList::new();
 
                 prop_value = obj.get("origins");
 
                 if let Some(o) = prop_value {
-                    let names_as_objs = o.as_array().unwrap();
+                    let names_as_objs = o
+                        .as_array()
+                        .ok_or_else(|| bad_json("list origins must be an array"))?;
 
                     let names = names_as_objs
                         .iter()
-                        .map(|e| e.as_str().unwrap().to_string())
-                        .collect();
+                        .map(|e| as_str(e, "list origin name").map(str::to_string))
+                        .collect::<Result<Vec<String>, StoryError>>()?;
 
                     raw_list.set_initial_origin_names(names);
                 }
 
                 for (k, v) in list_content {
                     let item = InkListItem::from_full_name(k);
-                    raw_list.items.insert(item, v.as_i64().unwrap() as i32);
+                    raw_list
+                        .items
+                        .insert(item, as_i64(v, "list item value")? as i32);
                 }
 
                 return Ok(Rc::new(Value::new::<InkList>(raw_list)));
@@ -360,7 +398,10 @@ fn jarray_to_container(
     //  - named content
     //  - a "#f" key with the countFlags
     // (if either exists at all, otherwise null)
-    let terminating_obj = jarray[jarray.len() - 1].as_object();
+    let terminating_obj = jarray
+        .last()
+        .ok_or_else(|| bad_json("container array must not be empty"))?
+        .as_object();
     let mut name: Option<String> = name;
     let mut flags = 0;
 
@@ -369,16 +410,15 @@ fn jarray_to_container(
     if let Some(terminating_obj) = terminating_obj {
         for (k, v) in terminating_obj {
             match k.as_str() {
-                "#f" => flags = v.as_i64().unwrap().try_into().unwrap(),
-                "#n" => name = Some(v.as_str().unwrap().to_string()),
+                "#f" => flags = as_i32(v, "container flags")?,
+                "#n" => name = Some(as_str(v, "container name")?.to_string()),
                 k => {
-                    let named_content_item =
-                        jtoken_to_runtime_object(v, Some(k.to_string())).unwrap();
+                    let named_content_item = jtoken_to_runtime_object(v, Some(k.to_string()))?;
 
                     let named_sub_container = named_content_item
                         .into_any()
                         .downcast::<Container>()
-                        .unwrap();
+                        .map_err(|_| bad_json("named content must be a container"))?;
 
                     named_only_content.insert(k.to_string(), named_sub_container);
                 }
@@ -399,11 +439,14 @@ pub fn jarray_to_runtime_obj_list(
     jarray: &[serde_json::Value],
     skip_last: bool,
 ) -> Result<Vec<Rc<dyn RTObject>>, StoryError> {
-    let mut count = jarray.len();
-
-    if skip_last {
-        count -= 1;
-    }
+    let count = if skip_last {
+        jarray
+            .len()
+            .checked_sub(1)
+            .ok_or_else(|| bad_json("array must not be empty"))?
+    } else {
+        jarray.len()
+    };
 
     let mut list: Vec<Rc<dyn RTObject>> = Vec::with_capacity(jarray.len());
 
@@ -416,12 +459,17 @@ pub fn jarray_to_runtime_obj_list(
 }
 
 fn jobject_to_choice(obj: &Map<String, serde_json::Value>) -> Result<Rc<dyn RTObject>, StoryError> {
-    let text = obj.get("text").unwrap().as_str().unwrap();
-    let index = obj.get("index").unwrap().as_u64().unwrap() as usize;
-    let source_path = obj.get("originalChoicePath").unwrap().as_str().unwrap();
-    let original_thread_index = obj.get("originalThreadIndex").unwrap().as_i64().unwrap() as usize;
-    let path_string_on_choice = obj.get("targetPath").unwrap().as_str().unwrap();
-    let choice_tags = jarray_to_tags(obj);
+    let field = |key: &str| {
+        obj.get(key)
+            .ok_or_else(|| bad_json(&format!("choice is missing \"{key}\"")))
+    };
+    let text = as_str(field("text")?, "choice text")?;
+    let index = as_u64(field("index")?, "choice index")? as usize;
+    let source_path = as_str(field("originalChoicePath")?, "choice source path")?;
+    let original_thread_index =
+        as_i64(field("originalThreadIndex")?, "choice thread index")? as usize;
+    let path_string_on_choice = as_str(field("targetPath")?, "choice target path")?;
+    let choice_tags = jarray_to_tags(obj)?;
 
     Ok(Rc::new(Choice::new_from_json(
         path_string_on_choice,
@@ -433,18 +481,20 @@ fn jobject_to_choice(obj: &Map<String, serde_json::Value>) -> Result<Rc<dyn RTOb
     )))
 }
 
-fn jarray_to_tags(obj: &Map<String, serde_json::Value>) -> Vec<String> {
+fn jarray_to_tags(obj: &Map<String, serde_json::Value>) -> Result<Vec<String>, StoryError> {
     let mut tags: Vec<String> = Vec::new();
 
     let prop_value = obj.get("tags");
     if let Some(pv) = prop_value {
-        let tags_array = pv.as_array().unwrap();
+        let tags_array = pv
+            .as_array()
+            .ok_or_else(|| bad_json("choice tags must be an array"))?;
         for tag in tags_array {
-            tags.push(tag.as_str().unwrap().to_string());
+            tags.push(as_str(tag, "choice tag")?.to_string());
         }
     }
 
-    tags
+    Ok(tags)
 }
 
 pub fn jtoken_to_list_definitions(
@@ -452,11 +502,18 @@ pub fn jtoken_to_list_definitions(
 ) -> Result<ListDefinitionsOrigin, StoryError> {
     let mut all_defs: Vec<ListDefinition> = Vec::with_capacity(0);
 
-    for (name, list_def_json) in def.as_object().unwrap() {
+    let defs = def
+        .as_object()
+        .ok_or_else(|| bad_json("listDefs must be an object"))?;
+
+    for (name, list_def_json) in defs {
         // Cast (string, object) to (string, int) for items
         let mut items: HashMap<String, i32> = HashMap::new();
-        for (k, v) in list_def_json.as_object().unwrap() {
-            items.insert(k.clone(), v.as_u64().unwrap() as i32);
+        let list_items = list_def_json
+            .as_object()
+            .ok_or_else(|| bad_json("list definition must be an object"))?;
+        for (k, v) in list_items {
+            items.insert(k.clone(), as_u64(v, "list definition item value")? as i32);
         }
 
         let def = ListDefinition::new(name.clone(), items);
@@ -477,7 +534,7 @@ pub(crate) fn jobject_to_hashmap_values(
             jtoken_to_runtime_object(v, None)?
                 .into_any()
                 .downcast::<Value>()
-                .unwrap(),
+                .map_err(|_| bad_json("expected a value"))?,
         );
     }
 
@@ -490,7 +547,7 @@ pub(crate) fn jobject_to_int_hashmap(
     let mut dict: HashMap<String, i32> = HashMap::new();
 
     for (k, v) in jobj.iter() {
-        dict.insert(k.clone(), v.as_i64().unwrap() as i32);
+        dict.insert(k.clone(), as_i64(v, "count")? as i32);
     }
 
     Ok(dict)
